@@ -240,6 +240,8 @@ func init() {
 }
 
 func runC06(c *Ctx) {
+	checkNextParamsNearest(c, "C06.R9 next-params-lookup-nearest-above")
+	checkModuleStateless(c, "C06.D1 module-holds-no-state")
 	p := c.P
 	c.Assume = append(c.Assume, "BLS soundness and weight arithmetic are value-level; pool selection policy is not decided")
 	vac := c.Anchor("pkg/consensus.(*Executer).verifyAggregateCommit")
